@@ -8,17 +8,19 @@
      filter_open pmatch c p           filterFS.Open admits p (MatchesOrParentMatches, both matchers)
      sent_content                     bytes sendFile delivers: the source's when Open succeeds,
                                       none when it fails (the error is dropped in send.go)
-   Proofs: Proofs/HardlinksP.v, RefValidP.v, SenderViewP.v, SenderTransferP.v, C11WitnessP.v.
+   Proofs: Proofs/HardlinksP.v, RefValidP.v, TrimP.v, SenderViewP.v, SenderTransferP.v,
+   C11WitnessP.v.
 
-   Everything is quantified over the external single-pattern matcher [pmatch] (about which only
-   C10's [prefix_semantics] is assumed), the map function, the pattern lists and the view.
+   Everything is quantified over the external single-pattern matcher [pmatch], the map function,
+   the pattern lists and the view.  About [pmatch] NOTHING is assumed except in walk_open_agree
+   (C10's [prefix_semantics] and [cfg_star_safe], for the direction "Open admits => reported").
    [wf_source view]: what a directory listing guarantees (names non-empty, without '/', not "."
    or "..", siblings strictly ascending bytewise, only directories have children).
    [source_links_ok view]: the hard links of the source are those of a canonical walk. *)
 From Coq Require Import List NArith Bool.
 From FS Require Import Sx Model.Path Model.Stat Model.Tree Model.Pattern Model.FilterWalk
   Model.Hardlinks Model.Validator Model.Diff Model.AbsDest Model.SenderView
-  Proofs.PatternP Proofs.HardlinksP Proofs.WitnessP Proofs.RefValidP Proofs.SenderViewP
+  Proofs.PatternP Proofs.HardlinksP Proofs.WitnessP Proofs.RefValidP Proofs.TrimP Proofs.SenderViewP
   Proofs.SenderTransferP Proofs.C11WitnessP.
 Import ListNotations.
 
@@ -69,17 +71,36 @@ Theorem wf_listing_passes_validator :
     run_validator (items l) = None.
 Proof. exact listing_passes_validator. Qed.
 
+(* ---- the walk as the code runs it, for ALL pattern lists and ALL matchers ----
+   filterFS.Walk with both SkipDir shortcuts reports exactly C10's reference filter (incremental
+   verdict) of the TRIMMED view: the source without the directories at which a shortcut fires
+   ([TrimP.prune_at], a function of the path) and without everything below them.  The trimmed
+   view is again a well-formed source and its walk is a sub-sequence of the source's walk.
+   (C10's prune_unobservable says more — nothing selected is lost — but needs hypotheses on
+   the external matcher; this needs none.) *)
+Theorem filter_walk_is_reference_of_trimmed_view :
+  forall pmatch mapfn c view, wf_source view = true ->
+    filter_walk pmatch mapfn c view = reference (keep_incr pmatch c) mapfn (TrimP.trim pmatch c view)
+    /\ wf_source (TrimP.trim pmatch c view) = true
+    /\ rsub eq (walk_root (TrimP.trim pmatch c view)) (walk_root view).
+Proof.
+  exact (fun pmatch mapfn c view H =>
+           conj (TrimP.filter_walk_trim_reference pmatch mapfn c view H)
+                (conj (TrimP.trim_wf_source pmatch c view H) (TrimP.trim_walk_root pmatch c view))).
+Qed.
+
 (* ---- what the sender announces is a valid stream for the receiver ----
-   for every pattern configuration, every map function as above and every well-formed source:
-   the order validator and the hard-link validator accept the whole STAT sequence. *)
+   for EVERY pattern configuration and EVERY single-pattern matcher (no hypothesis on the
+   external library: both SkipDir shortcuts are covered by the trimmed-view theorem below), every
+   map function as above and every well-formed source: the order validator and the hard-link
+   validator accept the whole STAT sequence. *)
 Theorem filtered_stream_valid :
   forall pmatch mapfn c view,
-    prefix_semantics pmatch -> cfg_star_safe c = true ->
     map_keeps_shape mapfn -> map_never_drops_dirs mapfn ->
     wf_source view = true -> source_links_ok view = true ->
     run_validator (items (sender_view pmatch mapfn c view)) = None /\
     hardlink_check (sender_view pmatch mapfn c view) = None.
-Proof. exact (fun pmatch mapfn c view Hs Hc H1 H2 => filtered_stream_valid_proof pmatch mapfn c Hs Hc H1 H2 view). Qed.
+Proof. exact (fun pmatch mapfn c view H1 H2 => filtered_stream_valid_proof pmatch mapfn c H1 H2 view). Qed.
 
 (* The statement without [map_never_drops_dirs] is FALSE: a MapFunc answering MapResultExclude
    for the directory d while keeping d/c makes filterFS.Walk report d/c without d, and the
@@ -88,7 +109,7 @@ Proof. exact (fun pmatch mapfn c view Hs Hc H1 H2 => filtered_stream_valid_proof
    corpus/C11/witnesses.case.) *)
 Theorem filtered_stream_valid_needs_map_hypothesis_refuted :
   exists pmatch mapfn c view,
-    prefix_semantics pmatch /\ cfg_star_safe c = true /\ map_keeps_shape mapfn /\
+    map_keeps_shape mapfn /\
     wf_source view = true /\ source_links_ok view = true /\
     run_validator (items (sender_view pmatch mapfn c view)) = Some 0%nat.
 Proof. exact map_drop_refuted_proof. Qed.
@@ -105,16 +126,17 @@ Theorem walk_open_agree :
     wf_source view = true -> all_paths (nls_path pmatch c) view = true ->
     forall q, source_file view q = true ->
       reported pmatch mapfn c view q = filter_open pmatch c q.
-Proof. exact (fun pmatch mapfn c view Hs Hc Hm Hk => walk_open_agree_proof pmatch mapfn c Hs Hc Hm view Hk). Qed.
+Proof. exact (fun pmatch mapfn c view Hs Hc Hm Hk => walk_open_agree_proof pmatch mapfn c Hm Hs Hc view Hk). Qed.
 
-(* every reported non-directory can be opened — whatever the map function drops *)
+(* every reported non-directory can be opened — whatever the map function drops, whatever the
+   single-pattern matcher *)
 Theorem reported_file_can_be_opened :
   forall pmatch mapfn c view,
-    prefix_semantics pmatch -> cfg_star_safe c = true -> map_keeps_shape mapfn ->
+    map_keeps_shape mapfn ->
     wf_source view = true -> all_paths (nls_path pmatch c) view = true ->
     forall s, In s (filter_walk pmatch mapfn c view) -> st_is_dir s = false ->
       filter_open pmatch c (st_path s) = true.
-Proof. exact (fun pmatch mapfn c view Hs Hc H1 => reported_file_opens pmatch mapfn c Hs Hc H1 view). Qed.
+Proof. exact (fun pmatch mapfn c view H1 => reported_file_opens pmatch mapfn c H1 view). Qed.
 
 (* Without no-late-shadow the statement is FALSE (known finding K1, late-shadow, of
    moby/patternmatcher seen through filter.go): include [d, !d/c, d], tree d/{c,e}: the walk
@@ -135,7 +157,6 @@ Proof. exact walk_open_agree_refuted_proof. Qed.
    carry the same bytes and mode (they are one inode).  [identity_faithful]: as in C02. *)
 Theorem filtered_transfer_converges :
   forall pmatch mapfn c view (H : bytes -> bytes) (hdr : stat -> bytes) d (A : list AbsDest.entry),
-    prefix_semantics pmatch -> cfg_star_safe c = true ->
     map_keeps_shape mapfn -> map_never_drops_dirs mapfn -> map_keeps_special mapfn ->
     wf_source view = true -> source_links_ok view = true -> groups_coherent view ->
     all_paths (nls_path pmatch c) view = true ->
@@ -144,8 +165,8 @@ Theorem filtered_transfer_converges :
     ds_err r = false /\
     forall p, view_equiv (alookup p (ds_map r)) (efind p (filtered_entries pmatch mapfn c view)).
 Proof.
-  exact (fun pmatch mapfn c view H hdr d A Hs Hc H1 H2 H3 Hw Hl Hg Hn =>
-           filtered_transfer_converges_proof pmatch mapfn c Hs Hc H1 H2 H3 view Hw Hl Hg Hn H hdr d A).
+  exact (fun pmatch mapfn c view H hdr d A H1 H2 H3 Hw Hl Hg Hn =>
+           filtered_transfer_converges_proof pmatch mapfn c H1 H2 H3 view Hw Hl Hg Hn H hdr d A).
 Qed.
 
 (* Without no-late-shadow the statement is FALSE, and harmfully so: EXCLUDE patterns
@@ -154,7 +175,6 @@ Qed.
    on the real Send/Receive: corpus/C11/late-shadow.witness. *)
 Theorem filtered_transfer_late_shadow_refuted :
   exists pmatch mapfn c view (H : bytes -> bytes) (hdr : stat -> bytes) q,
-    prefix_semantics pmatch /\ cfg_star_safe c = true /\
     map_keeps_shape mapfn /\ map_never_drops_dirs mapfn /\ map_keeps_special mapfn /\
     wf_source view = true /\ source_links_ok view = true /\ groups_coherent view /\
     let r := receive_abs H hdr Fresh DMetadata [] (sender_entries pmatch mapfn c view) in
@@ -167,6 +187,7 @@ Print Assumptions reset_eq_spec.
 Print Assumptions reset_representative.
 Print Assumptions reference_is_wf_listing.
 Print Assumptions wf_listing_passes_validator.
+Print Assumptions filter_walk_is_reference_of_trimmed_view.
 Print Assumptions filtered_stream_valid.
 Print Assumptions filtered_stream_valid_needs_map_hypothesis_refuted.
 Print Assumptions walk_open_agree.
